@@ -346,6 +346,21 @@ func (o opSpec) String() string {
 	return fmt.Sprintf("%s%v", o.Name, o.P)
 }
 
+// cliOps: further flag values for the CLI runs only (not part of the history alphabet): reference points given in
+// descending order, a correction that only shifts, one that reverses, other duration spellings (never a zero: the
+// CLI takes a zero flag value for "not given" and refuses it - its documented usage).
+var cliOps = []opSpec{
+	{"linear", []int64{2e9, 4e9, 1e9, 2e9}}, {"linear", []int64{10e9, 11e9, 1e9, 2e9}}, {"linear", []int64{3e9, 1e9, 1e9, 3e9}},
+	{"add", []int64{250e6}}, {"fragment", []int64{1500e6}},
+}
+
+func opAt(i int) opSpec {
+	if i < len(alphabet) {
+		return alphabet[i]
+	}
+	return cliOps[i-len(alphabet)]
+}
+
 var otherSRT = []byte("1\n00:00:00,500 --> 00:00:01,250\nother one\n\n2\n00:00:02,750 --> 00:00:06,000\nother two\n")
 
 func otherDoc() *astisub.Subtitles {
@@ -644,7 +659,7 @@ func checkCLI(cc CLICase, bin, scratch string) (key, msg string, out uint64) {
 			}
 			s.Merge(s2)
 		} else if cc.OpIdx >= 0 {
-			applyReal(s, alphabet[cc.OpIdx])
+			applyReal(s, opAt(cc.OpIdx))
 		}
 		werr = s.Write(libp)
 	}()
@@ -814,6 +829,10 @@ func run(c *core.Ctx) {
 		{"fragment", []string{"-f", "700ms"}, 3}, {"fragment", []string{"-f", "2s"}, 4},
 		{"unfragment", nil, 5}, {"merge", nil, 6}, {"optimize", nil, 7},
 		{"apply-linear-correction", []string{"-a1", "1s", "-d1", "2s", "-a2", "2s", "-d2", "4s"}, 8},
+		{"apply-linear-correction", []string{"-a1", "2s", "-d1", "4s", "-a2", "1s", "-d2", "2s"}, len(alphabet)},
+		{"apply-linear-correction", []string{"-a1", "10s", "-d1", "11s", "-a2", "1s", "-d2", "2s"}, len(alphabet) + 1},
+		{"apply-linear-correction", []string{"-a1", "3s", "-d1", "1s", "-a2", "1s", "-d2", "3s"}, len(alphabet) + 2},
+		{"sync", []string{"-s", "250ms"}, len(alphabet) + 3}, {"fragment", []string{"-f", "1.5s"}, len(alphabet) + 4},
 	}
 	valid := []corpus.Doc{}
 	for _, d := range corpus.Small() {
